@@ -68,16 +68,16 @@ def read_swc(
     if fix_roots is not False and np.count_nonzero(df[names.pid] == -1) > 1:
         match fix_roots:
             case "somas":
-                mark_roots_as_somas_(df)
+                mark_roots_as_somas_(df, names=names)
             case "nearest":
-                link_roots_to_nearest_(df)
+                link_roots_to_nearest_(df, names=names)
             case _:
                 raise ValueError(f"unknown fix type `{fix_roots}`")
 
     if sort_nodes:
-        sort_nodes_(df)
+        sort_nodes_(df, names=names)
     elif reset_index:
-        reset_index_(df)
+        reset_index_(df, names=names)
 
     # check swc
     if not is_single_root(df, names=names):
